@@ -36,6 +36,7 @@ FIXED = [
     ("C14", "de3a680", "size literals with the documented units t, tb, tib were not parsed (`size = 1t` compared with 0)", ["t-units", "tb-units", "tib-fraction"]),
     ("C04", "8580ef9", "is_char was true for symbolic links and block devices (`mode & S_IFCHR == S_IFCHR` without the S_IFMT mask): two type booleans true at once", ["symlink-and-block-are-not-char"]),
     ("C04", "0e69e47", "for archive members is_file/is_dir/is_symlink came from the member name only: a member stored with a FIFO, device, socket or symlink mode was also reported as a regular file", []),
+    ("C17", "725b9c0", "when the reader of stdout closed the pipe, `into html`/`into json` (footer) and grouped output hit unwrap() on the BrokenPipe error: panic message, status 101", ["pipe-html-streamed", "pipe-json-ordered"]),
 ]
 
 OPEN = [
